@@ -1454,6 +1454,14 @@ class Exec:
         inits = [c for c in d.get('inner', ()) if c.get('kind') not in ('TemplateArgument',) and 'Attr' not in c.get('kind', '') and 'Comment' not in c.get('kind', '')]
         if d.get('storageClass') == 'static' or d.get('tls'):
             qt = d.get('type', {}).get('qualType', '')
+            c0 = self.cur_contract
+            if c0 is not None and self.cur_fnode is self.fnode and d.get('name') in c0.static_alias:
+                # a reviewed piece of per-thread state that the contract names: an abstract value (ghost global) whose
+                # operations are the contracts of its methods; its one-time initialisation is part of its invariant
+                gp = self.ensure_global(c0.static_alias[d['name']])
+                self.store[d['id']] = RefVal(gp)
+                self.var_shapes[d['id']] = sh
+                return
             if not (qt.startswith('const ') or d.get('constexpr')):
                 # mutable static / thread_local local: hidden state that outlives the call. The contracts describe
                 # results as functions of the arguments and the object only, so this is a frame violation.
